@@ -300,11 +300,8 @@ func (si *stmtInliner) findSlot(e *ast.Expr) *ast.Expr {
 	switch x := (*e).(type) {
 	case *ast.CallExpr:
 		if c, _ := si.candOf(x); c != nil {
-			for _, a := range x.Args {
-				if !exprIsCheap(si.info, a) {
-					return nil
-				}
-			}
+			// the arguments are bound to fresh variables in order before the body, which is the order
+			// the call itself evaluates them in: they need not be cheap
 			return e
 		}
 		if callIsCheap(si.info, x) {
@@ -374,14 +371,15 @@ func (si *stmtInliner) importsAgree(c *stmtCand) bool {
 }
 
 // expand builds the statements replacing stmt (which contains call at *slot). tail: stmt is `return call`.
-func (si *stmtInliner) expand(stmt ast.Stmt, slot *ast.Expr, tail bool) []ast.Stmt {
-	call := (*slot).(*ast.CallExpr)
+// bindCall clones the helper called by call: returns the candidate, the unique prefix, the statements that
+// declare and bind the parameters (in argument order), the cloned body and a type-expression cloner.
+func (si *stmtInliner) bindCall(call *ast.CallExpr) (c *stmtCand, uid string, inner []ast.Stmt, body *ast.BlockStmt, varDecl func(name string, t ast.Expr) ast.Stmt) {
 	c, recv := si.candOf(call)
 	if c == nil || !si.importsAgree(c) {
-		return nil
+		return nil, "", nil, nil, nil
 	}
 	inlUID++
-	uid := fmt.Sprintf("inl%d_", inlUID)
+	uid = fmt.Sprintf("inl%d_", inlUID)
 	args := call.Args
 	if c.isMeth {
 		args = append([]ast.Expr{recv}, call.Args...)
@@ -419,10 +417,9 @@ func (si *stmtInliner) expand(stmt ast.Stmt, slot *ast.Expr, tail bool) []ast.St
 		stripPos(ct)
 		return ct
 	}
-	varDecl := func(name string, t ast.Expr) ast.Stmt {
+	varDecl = func(name string, t ast.Expr) ast.Stmt {
 		return &ast.DeclStmt{Decl: &ast.GenDecl{Tok: token.VAR, Specs: []ast.Spec{&ast.ValueSpec{Names: []*ast.Ident{noPosIdent(name)}, Type: cloneType(t)}}}}
 	}
-	var inner []ast.Stmt
 	for i, nm := range c.names {
 		inner = append(inner, varDecl(uid+nm, c.ptypes[i]))
 	}
@@ -430,7 +427,231 @@ func (si *stmtInliner) expand(stmt ast.Stmt, slot *ast.Expr, tail bool) []ast.St
 		inner = append(inner, &ast.AssignStmt{Lhs: []ast.Expr{noPosIdent(uid + nm)}, Tok: token.ASSIGN, Rhs: []ast.Expr{args[i]}})
 		inner = append(inner, &ast.AssignStmt{Lhs: []ast.Expr{noPosIdent("_")}, Tok: token.ASSIGN, Rhs: []ast.Expr{noPosIdent(uid + nm)}})
 	}
-	body := cloneAST(c.decl.Body, hook).(*ast.BlockStmt)
+	body = cloneAST(c.decl.Body, hook).(*ast.BlockStmt)
+	return c, uid, inner, body, varDecl
+}
+
+// rewriteReturns replaces every return statement of a cloned helper body by f(results, last); last says that the
+// return is the final statement of the body (control would fall out of the block anyway).
+func rewriteReturns(body *ast.BlockStmt, f func(results []ast.Expr, last bool) ast.Stmt) {
+	var rewriteList func(list []ast.Stmt, last bool) []ast.Stmt
+	var rewriteStmt func(s ast.Stmt, last bool) ast.Stmt
+	rewriteStmt = func(s ast.Stmt, last bool) ast.Stmt {
+		switch x := s.(type) {
+		case *ast.ReturnStmt:
+			return f(x.Results, last)
+		case *ast.BlockStmt:
+			x.List = rewriteList(x.List, last)
+		case *ast.IfStmt:
+			x.Body.List = rewriteList(x.Body.List, last)
+			if x.Else != nil {
+				x.Else = rewriteStmt(x.Else, last)
+			}
+		case *ast.ForStmt:
+			x.Body.List = rewriteList(x.Body.List, false)
+		case *ast.RangeStmt:
+			x.Body.List = rewriteList(x.Body.List, false)
+		case *ast.SwitchStmt:
+			for _, cc := range x.Body.List {
+				cl := cc.(*ast.CaseClause)
+				cl.Body = rewriteList(cl.Body, false)
+			}
+		case *ast.TypeSwitchStmt:
+			for _, cc := range x.Body.List {
+				cl := cc.(*ast.CaseClause)
+				cl.Body = rewriteList(cl.Body, false)
+			}
+		case *ast.LabeledStmt:
+			x.Stmt = rewriteStmt(x.Stmt, last)
+		}
+		return s
+	}
+	rewriteList = func(list []ast.Stmt, last bool) []ast.Stmt {
+		for i, s := range list {
+			list[i] = rewriteStmt(s, last && i == len(list)-1)
+		}
+		return list
+	}
+	body.List = rewriteList(body.List, true)
+}
+
+// splitAnd flattens a && b && c (parentheses removed) into its conjuncts, in evaluation order.
+func splitAnd(e ast.Expr) []ast.Expr {
+	for {
+		p, ok := e.(*ast.ParenExpr)
+		if !ok {
+			break
+		}
+		e = p.X
+	}
+	if b, ok := e.(*ast.BinaryExpr); ok && b.Op == token.LAND {
+		return append(splitAnd(b.X), splitAnd(b.Y)...)
+	}
+	return []ast.Expr{e}
+}
+
+// predCall: e is [!]f(...) with f a dissolvable helper that returns exactly one boolean.
+func (si *stmtInliner) predCall(e ast.Expr) (*ast.CallExpr, bool) {
+	neg := false
+	for {
+		switch x := e.(type) {
+		case *ast.ParenExpr:
+			e = x.X
+			continue
+		case *ast.UnaryExpr:
+			if x.Op == token.NOT {
+				e, neg = x.X, !neg
+				continue
+			}
+		}
+		break
+	}
+	call, ok := e.(*ast.CallExpr)
+	if !ok {
+		return nil, false
+	}
+	c, _ := si.candOf(call)
+	if c == nil || len(c.rtypes) != 1 {
+		return nil, false
+	}
+	rt := c.obj.Type().(*types.Signature).Results().At(0).Type()
+	if b, ok := rt.Underlying().(*types.Basic); !ok || b.Info()&types.IsBoolean == 0 {
+		return nil, false
+	}
+	return call, neg
+}
+
+// expandIf dissolves boolean helpers that stand as conjuncts of an if condition by threading their returns to
+// the branches (`return E` becomes `if E { goto next }; goto else`), so that the branch a rule looks at is
+// still controlled directly by the comparisons the helper makes, not by a merged boolean.
+//   if c1 && f(a) && c3 { A } else { B }
+// becomes
+//   if !(c1) { goto F }; { params := a; body(f) with threaded returns }; N: if !(c3) { goto F }; { A }; goto E; F: { B }; E: ;
+func (si *stmtInliner) expandIf(is *ast.IfStmt) []ast.Stmt {
+	if is.Init != nil {
+		return nil
+	}
+	conj := splitAnd(is.Cond)
+	any := false
+	for _, cj := range conj {
+		if call, _ := si.predCall(cj); call != nil {
+			any = true
+		}
+	}
+	if !any {
+		return nil
+	}
+	if is.Else != nil {
+		if _, ok := is.Else.(*ast.BlockStmt); !ok {
+			return nil // else-if chains stay as they are
+		}
+	}
+	inlUID++
+	base := fmt.Sprintf("inl%d_", inlUID)
+	lblF, lblE := base+"else", base+"endif"
+	usedF := 0
+	gotoS := func(l string) ast.Stmt { return &ast.BranchStmt{Tok: token.GOTO, Label: noPosIdent(l)} }
+	// the cloned body carries no type information: `true`/`false` are read by name, which is safe when neither
+	// the package nor the helper declares such a name (checked on the original declaration)
+	shadowed := func(c *stmtCand) bool {
+		if c.obj.Pkg().Scope().Lookup("true") != nil || c.obj.Pkg().Scope().Lookup("false") != nil {
+			return true
+		}
+		sh := false
+		ast.Inspect(c.decl, func(n ast.Node) bool {
+			if id, ok := n.(*ast.Ident); ok && (id.Name == "true" || id.Name == "false") && si.info.Defs[id] != nil {
+				sh = true
+			}
+			return !sh
+		})
+		return sh
+	}
+	isLit := func(e ast.Expr, name string) bool {
+		for {
+			p, ok := e.(*ast.ParenExpr)
+			if !ok {
+				break
+			}
+			e = p.X
+		}
+		id, ok := e.(*ast.Ident)
+		return ok && id.Name == name
+	}
+	var out []ast.Stmt
+	n0 := si.n
+	for i, cj := range conj {
+		call, neg := si.predCall(cj)
+		if call == nil {
+			usedF++
+			out = append(out, &ast.IfStmt{Cond: &ast.UnaryExpr{Op: token.NOT, X: &ast.ParenExpr{X: cj}}, Body: &ast.BlockStmt{List: []ast.Stmt{gotoS(lblF)}}})
+			continue
+		}
+		c, _, inner, body, _ := si.bindCall(call)
+		if c == nil {
+			si.n = n0
+			return nil
+		}
+		lblN := fmt.Sprintf("%snext%d", base, i)
+		usedN := 0
+		rewriteReturns(body, func(res []ast.Expr, last bool) ast.Stmt {
+			if len(res) != 1 {
+				return &ast.ReturnStmt{} // cannot happen for a one-result function; fails the re-check
+			}
+			e := res[0]
+			tr, fl := false, false
+			if !shadowed(c) {
+				tr, fl = isLit(e, "true"), isLit(e, "false")
+			}
+			if neg {
+				tr, fl = fl, tr
+			}
+			switch {
+			case tr:
+				usedN++
+				return gotoS(lblN)
+			case fl:
+				usedF++
+				return gotoS(lblF)
+			}
+			usedN++
+			usedF++
+			t, f := lblN, lblF
+			if neg {
+				t, f = f, t
+			}
+			return &ast.BlockStmt{List: []ast.Stmt{
+				&ast.IfStmt{Cond: e, Body: &ast.BlockStmt{List: []ast.Stmt{gotoS(t)}}},
+				gotoS(f)}}
+		})
+		inner = append(inner, body.List...)
+		out = append(out, &ast.BlockStmt{List: inner})
+		if usedN > 0 {
+			out = append(out, &ast.LabeledStmt{Label: noPosIdent(lblN), Stmt: &ast.EmptyStmt{}})
+		}
+		si.n++
+	}
+	out = append(out, is.Body)
+	if is.Else != nil {
+		out = append(out, gotoS(lblE))
+		var els ast.Stmt = is.Else
+		if usedF > 0 {
+			els = &ast.LabeledStmt{Label: noPosIdent(lblF), Stmt: is.Else}
+		}
+		out = append(out, els, &ast.LabeledStmt{Label: noPosIdent(lblE), Stmt: &ast.EmptyStmt{}})
+	} else if usedF > 0 {
+		out = append(out, &ast.LabeledStmt{Label: noPosIdent(lblF), Stmt: &ast.EmptyStmt{}})
+	}
+	// labels are function scoped but a goto may not jump over a variable declaration of its own block:
+	// everything goes into one block that declares nothing at its top level
+	return []ast.Stmt{&ast.BlockStmt{List: out}}
+}
+
+func (si *stmtInliner) expand(stmt ast.Stmt, slot *ast.Expr, tail bool) []ast.Stmt {
+	call := (*slot).(*ast.CallExpr)
+	c, uid, inner, body, varDecl := si.bindCall(call)
+	if c == nil {
+		return nil
+	}
 	label := uid + "end"
 	usedGoto := false
 	var out []ast.Stmt
@@ -598,6 +819,13 @@ func (si *stmtInliner) processList(list []ast.Stmt, results *types.Tuple) []ast.
 			}
 		}
 		si.processNested(s, results)
+		if is, ok := s.(*ast.IfStmt); ok {
+			if ex := si.expandIf(is); ex != nil {
+				out = append(out, ex...)
+				si.touched[si.curFunc] = true
+				continue
+			}
+		}
 		replaced := false
 		slots := slotsOf(s)
 		for k, sl := range slots {
